@@ -750,6 +750,18 @@ func (sw *SingleAddressWallet) Redistribute(outputs int, amount, feePerByte type
 
 	// prepare defrag transactions
 	state := sw.cm.TipState()
+
+	// the cost of one transaction is bounded by a full batch of outputs plus
+	// the fee for spending every usable output; a request for which even that
+	// bound does not fit a Currency can not be covered and is refused before
+	// the arithmetic below overflows
+	fullBatch := types.V2Transaction{SiacoinOutputs: make([]types.SiacoinOutput, redistributeBatchSize)}
+	maxWeight := state.V2TransactionWeight(fullBatch) + bytesPerInput*uint64(len(utxos))
+	maxWant, wantOverflow := amount.Mul64WithOverflow(redistributeBatchSize)
+	maxFee, feeOverflow := feePerByte.Mul64WithOverflow(maxWeight)
+	if _, sumOverflow := maxWant.AddWithOverflow(maxFee); wantOverflow || feeOverflow || sumOverflow {
+		return types.ChainIndex{}, nil, nil, fmt.Errorf("%w: outputs of %v at %v per byte exceed the maximum currency value", ErrNotEnoughFunds, amount.String(), feePerByte.String())
+	}
 	for outputs > 0 {
 		var txn types.V2Transaction
 		for i := 0; i < outputs && i < redistributeBatchSize; i++ {
